@@ -37,7 +37,7 @@ RULE = ('ISO: one case = one worker lifetime (start method, quota 1-5/none, syn-
         'POOL: one case = one real-pool scenario. PARENT: one case = one history of cancel/ACK/READY deliveries.')
 ASSUMPTIONS = [
     'the harness plays the parent in lane ISO: SYN answers are sent only after the ACK was read (as ApplyResult._ack does)',
-    'a worker sleeping in read() on its own in/syn-queue with no CPU use between two samples 1 s apart, while the harness owes it no message, is reported as deadlocked (state-based, x86_64 /proc/<pid>/syscall); remaining wall-clock upper bounds (worker silent for 25 s, exit later than 20 s after the last credit) are re-run alone before being reported',
+    'a worker sleeping in read() on its own in/syn-queue with no CPU use between two samples 1 s apart, while the harness owes it no message, is reported as deadlocked (state-based, x86_64 /proc/<pid>/syscall); remaining wall-clock upper bounds (worker silent for 40 s / 120 s at start-up, exit later than 20 s after the last credit) are re-run alone before being reported',
     'the never-credited lane (30 s consumption guard) runs in the thorough tier only',
     'READY payloads are checked for success flag / tag / exception family only (content fidelity is C12)',
 ]
@@ -185,7 +185,7 @@ def run_iso_spec(spec, rec):
         h = drive_lifetime(p, rec)
         judge_lifetime(p, h, rec)
         rec.flush()
-        if h['status'] in ('deadlock', 'silent', 'guard_exit_never'):
+        if h['status'] in ('deadlock', 'stalled', 'silent', 'guard_exit_never'):
             # every further lifetime of a tree that hangs costs the same wait
             rec.count('iso:lifetimes_skipped_after_hang', spec['lifetimes'] - n - 1)
             break
@@ -259,7 +259,10 @@ def drive_lifetime(p, rec):
     executed = 0
     uncredited = 0
     death = None
-    silent_limit = 25.0
+    silent_limit = 40.0
+    first_limit = 120.0         # process start-up (spawn imports) on a loaded machine
+    in_progress = None
+    sleepy = []
     quota = p['quota']
     end_sent = False
     t_last = time.monotonic()
@@ -324,7 +327,19 @@ def drive_lifetime(p, rec):
                         break
                     if last_block is None or b != last_block[0]:
                         last_block = (b, now)
-                if now - t_last > silent_limit:
+                    # the worker naps (nanosleep) although, by the protocol,
+                    # it has neither a job in progress nor a reason to leave:
+                    # three samples in a row, over 2 s, result pipe empty
+                    idle = (h['stream'] and in_progress is None and not end_sent and
+                            not (quota is not None and executed >= quota))
+                    if idle and _sleeping_sample(pid) and not outq._reader.poll(0):
+                        sleepy.append(now)
+                        if len(sleepy) >= 3 and sleepy[-1] - sleepy[0] >= 2.0:
+                            status = 'stalled'
+                            break
+                    else:
+                        del sleepy[:]
+                if now - t_last > (silent_limit if h['stream'] else first_limit):
                     status = 'silent'
                     break
                 continue
@@ -343,6 +358,10 @@ def drive_lifetime(p, rec):
                     if j['nack']:
                         resolved += 1
                         send_next()
+                    else:
+                        in_progress = jid
+                else:
+                    in_progress = jid
                 if j is not None and j['desc']['kind'] == 'gate' and not (synq is not None and j['nack']):
                     # the gate opens only now, after the ACK has been *read*
                     h.setdefault('gate_opened', {})[jid] = time.monotonic()
@@ -350,6 +369,7 @@ def drive_lifetime(p, rec):
             elif typ == bpool.READY:
                 executed += 1
                 resolved += 1
+                in_progress = None
                 if p['credit'] == 'immediate':
                     credit(1)
                     t_last_credit = time.monotonic()
@@ -399,6 +419,12 @@ def drive_lifetime(p, rec):
                 extra.append([typ, _plain_args(typ, args, bpool)])
         except (EOFError, OSError):
             pass
+        if death is None:
+            # the harness stopped reading: what was still in the pipe is the
+            # rest of the stream, not something sent after a DEATH
+            h['stream'].extend([typ, a, time.monotonic()] for typ, a in extra)
+            h['drained_after_stop'] = len(extra)
+            extra = []
         h['after_death'] = extra
         h['unread_tasks'] = len(jobs) - nsent[0]
         h['nsent'] = nsent[0]
@@ -421,6 +447,11 @@ def drive_lifetime(p, rec):
 def _blocked_sample(pid, inodes):
     from vmon.c03_helpers import blocked_sample
     return blocked_sample(pid, inodes)
+
+
+def _sleeping_sample(pid):
+    from vmon.c03_helpers import sleeping_sample
+    return sleeping_sample(pid)
 
 
 def _plain_args(typ, args, bpool):
@@ -660,7 +691,7 @@ def judge_lifetime(p, h, rec):
           in_progress=state, events_tail=ev[-4:])
     elif h['status'] == 'guard_exit_never':
         V('guard_exit_never', qattr)
-    elif h['status'] in ('silent', 'deadlock'):
+    elif h['status'] in ('silent', 'deadlock', 'stalled'):
         if state is not None:
             phase = 'awaiting_ready'
         elif quota is not None and executed >= quota:
@@ -671,7 +702,11 @@ def judge_lifetime(p, h, rec):
             phase = 'awaiting_ack'
         else:
             phase = 'other'
-        if h['status'] == 'deadlock':
+        if h['status'] == 'stalled':
+            V('worker_stalled_outside_protocol', dict(qattr, phase=phase), executed=executed,
+              acked=len(acked), refused=len(refused), sent=h['nsent'], quota=quota,
+              what='sleeping with no job in progress, quota not reached, not asked to leave')
+        elif h['status'] == 'deadlock':
             V('worker_deadlocked', dict(qattr, phase=phase, blocked_on=h.get('blocked_on')),
               executed=executed, acked=len(acked), sent=h['nsent'], quota=quota,
               events_tail=ev[-4:])
@@ -846,7 +881,8 @@ def judge_pool(sc, p, obs, ev, attrs, rec):
         rec.violation(kind, a, params=p, **detail)
 
     if obs.get('deadlock'):
-        V('worker_deadlocked', {'blocked_on': 'synq'}, deadlock=obs['deadlock'],
+        on = sorted({w[1] for w in obs['deadlock'].get('workers', [])})
+        V('worker_deadlocked', {'blocked_on': '+'.join(on)}, deadlock=obs['deadlock'],
           events_tail=ev[-8:])
         return
     if sc == 'synack' and not obs.get('blockers_accepted'):
